@@ -112,6 +112,8 @@ def build_metadata(schema):
                     cols.append(sa.Column(c["name"], mk_type(c["ty"]), sa.Computed(c["computed"]["sql"], persisted=bool(c["computed"].get("persisted"))),
                                           nullable=c["nullable"], **kw))
                 continue
+            if c.get("comment") is not None:
+                kw["comment"] = c["comment"]   # SQLite has no comments (dialect.supports_comments is False): never compared
             cols.append(
                 sa.Column(c["name"], mk_type(c["ty"]), nullable=c["nullable"], server_default=mk_default(c.get("default")), **kw)
             )
@@ -130,7 +132,7 @@ def build_metadata(schema):
                     initially=f.get("initially"),
                 )
             )
-        tbl = sa.Table(t["name"], md, *items)
+        tbl = sa.Table(t["name"], md, *items, comment=t.get("comment"))
         for ix in t.get("ixs", []):
             # "desc": first column descending - SQLite reflects the index with plain column names
             exprs = [tbl.c[c].desc() if (i == 0 and ix.get("desc")) else tbl.c[c] for i, c in enumerate(ix["cols"])]
@@ -229,7 +231,8 @@ def canon_diffs(mctx, diffs):
         elif kind in ("add_fk", "remove_fk"):
             out.append(_fk_canon(d[1], kind))
         else:
-            out.append({"k": kind, "raw": repr(d)[:200]})
+            tname = getattr(d[1], "name", None) if len(d) > 1 else None
+            out.append({"k": kind, "t": tname if isinstance(tname, str) else "?", "raw": repr(d)[:200]})
     return out
 
 
